@@ -7,6 +7,8 @@
 #include "c19_timeline_oracle.hpp"
 #include "verif_rc.hpp"
 
+#include <csignal>
+
 using vr::VCase;
 using vr::VProp;
 using vr::VResult;
@@ -64,9 +66,16 @@ Setup gen_setup(bool boundary) {
   } else {
     // general start (no caller does this): offsets from comparable to the
     // interval up to 10^6 times larger, both signs
-    const double off = T0 * vr::logu(1e-3, 1e6) * (vr::coin() ? 1. : -1.);
-    s.start = off;
-    s.end = off + T0;
+    if (vr::coin()) {
+      const double off = T0 * vr::logu(1e-3, 1e6) * (vr::coin() ? 1. : -1.);
+      s.start = off;
+      s.end = off + T0;
+    } else {
+      // start and end chosen independently: end - start is then rounded and
+      // start + (end - start) need not reproduce the end time
+      s.end = T0;
+      s.start = vr::coin() ? -T0 * vr::logu(1e-6, 1e3) : T0 * vr::uni(0., 0.999);
+    }
     if (!(s.end - s.start > 0.)) { // cannot happen for these ratios
       s.start = 0.;
       s.end = T0;
@@ -81,7 +90,7 @@ Setup gen_setup(bool boundary) {
     s.maxstep = 0.;
     break;
   case 1:
-    s.maxstep = around(tie(T, vr::weighted({3, 3, 3, 2, 2, 1, 1, 1, 1})));
+    s.maxstep = around(tie(T, vr::weighted({6, 6, 6, 4, 3, 2, 1, 1, 1})));
     break;
   case 2:
     s.maxstep = T * vr::logu(1. / 200., 1.5);
@@ -154,7 +163,13 @@ double gen_special(const Setup &s) {
 }
 
 std::vector<double> gen_history(const Setup &s, bool boundary) {
-  const int depth = vr::coin(0.15) ? 66 : 48;
+  // how many binary orders below the interval the requests reach: in 70% of
+  // the cases not below the minimum (a real run ends at the first stop, so
+  // long histories without one matter), otherwise 48, rarely 66 (below one
+  // integer unit)
+  int depth = vr::coin(0.15) ? 66 : 48;
+  if (vr::coin(0.7))
+    depth = std::max(3, std::min(depth, 63 - s.kmin));
   const int64_t L = vr::irange(1, 40);
   std::vector<double> q;
   const int pat =
@@ -196,9 +211,10 @@ std::vector<double> gen_history(const Setup &s, bool boundary) {
     for (int64_t k = 0; k < L; ++k)
       q.push_back(around(tie(s.T, vr::irange(0, depth))));
   }
-  const double pspecial = boundary ? 0.15 : 0.08;
+  const double pspecial =
+      vr::coin(0.6) ? 0. : (boundary ? 0.15 : 0.08); // 60% of the histories: none
   for (auto &v : q)
-    if (vr::coin(pspecial))
+    if (pspecial > 0. && vr::coin(pspecial))
       v = gen_special(s);
   return q;
 }
@@ -228,11 +244,31 @@ VCase gen_case(bool boundary) {
   }
   c.D("fin", fin);
   c.I("save_at", vr::coin(0.4) ? vr::irange(0, (int64_t)q.size()) : -1);
+  c.I("every_step", vr::coin(0.1) ? 1 : 0);
   return c;
 }
 
 // ------------------------------------------------------------------ oracle
+// advance() consists of loops; a defect there can make it spin forever.  A
+// call that does not return is reported as inconclusive (exit 2), never as a
+// verdict: 60 s is > 10^5 times the normal cost of a whole case.
+std::string g_current_case;
+void on_alarm(int) {
+  static const char msg[] = "INCONCLUSIVE C19 a generated history did not "
+                            "finish within 60 s (advance() not returning?): ";
+  (void)!write(2, msg, sizeof msg - 1);
+  (void)!write(2, g_current_case.data(), g_current_case.size());
+  (void)!write(2, "\n", 1);
+  _exit(2);
+}
+
 VResult o_history(const VCase &c) {
+  g_current_case = c.to_text();
+  signal(SIGALRM, on_alarm);
+  alarm(60);
+  struct Disarm {
+    ~Disarm() { alarm(0); }
+  } disarm;
   tl19::Case k;
   k.start = c.d("start");
   k.end = c.d("end");
@@ -241,6 +277,7 @@ VResult o_history(const VCase &c) {
   k.reqs = c.dv("reqs");
   k.fin = c.d("fin");
   k.save_at = (long)c.i("save_at");
+  k.every_step = c.has_i("every_step") && c.i("every_step") != 0;
   const tl19::Outcome o = tl19::run_case(k, scratch());
   VResult r;
   for (auto &l : o.labels)
